@@ -2193,7 +2193,9 @@ func (interp *Interpreter) cfg(root *node, sc *scope, importPath, pkgName string
 			clauses := sbn.child
 			l := len(clauses)
 			if l == 0 {
-				// Switch is empty
+				// Switch is empty: its init statement and tag are still evaluated.
+				n.start = n.child[0].start
+				n.child[0].tnext = n
 				break
 			}
 			// Chain case clauses.
@@ -2256,7 +2258,9 @@ func (interp *Interpreter) cfg(root *node, sc *scope, importPath, pkgName string
 			clauses := sbn.child
 			l := len(clauses)
 			if l == 0 {
-				// Switch is empty
+				// Switch is empty: its init statement and tag are still evaluated.
+				n.start = n.child[0].start
+				n.child[0].tnext = n
 				break
 			}
 			// Wire case clauses in reverse order so the next start node is already resolved when used.
